@@ -132,6 +132,22 @@ def _classify_path(ctx, func, expr, _depth=0):
         return "unknown", None
     if isinstance(expr, ast.Name):
         vals = ctx.r.local_assignments(func).get(expr.id)
+        bind = ctx.__dict__.get("_c15_bind", {}).get(func.key)
+        if not vals and bind is not None and expr.id in func.params:
+            # parameter of a write helper: classify what the cache code passes for it
+            kinds = set()
+            for g, call in bind:
+                pos = [p_ for p_ in func.positional if p_ not in ("self", "cls")]
+                arg = None
+                if expr.id in pos and pos.index(expr.id) < len(call.args):
+                    arg = call.args[pos.index(expr.id)]
+                for k in call.keywords:
+                    if k.arg == expr.id:
+                        arg = k.value
+                kinds.add(_classify_path(ctx, g, arg, _depth + 1)[0] if arg is not None else "unknown")
+            if len(kinds) == 1:
+                return kinds.pop(), None
+            return "unknown", None
         if vals and len(vals) == 1:
             k, src = _classify_path(ctx, func, vals[0], _depth + 1)
             return k, src
@@ -162,9 +178,42 @@ def _names_tempfile(ctx, f, src, ctor_call):
     return False
 
 
+def _with_helpers(ctx, scope):
+    """scope functions plus repo functions they call that themselves open a file for
+    writing (write helpers / context managers); records the call sites so that the
+    helper's path parameter can be classified."""
+    bind = ctx.__dict__.setdefault("_c15_bind", {})
+    out = list(scope)
+    for g in scope:
+        for call, res in ctx.r.calls_in(g):
+            for h in res.callees:
+                if h in scope or h.cls is not None and h.name == "__init__":
+                    continue
+                if any(isinstance(n, ast.Call) and _is_write_open(n) for n in walk_local(h.node)):
+                    bind.setdefault(h.key, []).append((g, call))
+                    if h not in out:
+                        out.append(h)
+    return out
+
+
+def _in_cleanup_clause(f, node, protected):
+    """``node`` sits in a ``finally`` body or an ``except`` handler of a try whose body
+    contains ``protected``: it also runs when the protected statement failed."""
+    parents = f.module.parents
+    child, cur = node, parents.get(node)
+    while cur is not None and cur is not f.node:
+        if isinstance(cur, ast.Try):
+            in_final = any(child is s for s in cur.finalbody)
+            in_handler = any(child is h for h in cur.handlers)
+            if (in_final or in_handler) and any(x is protected for b in cur.body for x in ast.walk(b)):
+                return "finally" if in_final else "except"
+        child, cur = cur, parents.get(cur)
+    return None
+
+
 def rule_atomic(ctx):
     r = RuleResult("C15-ATOMIC", "durable cache writes publish atomically", 1)
-    for f in _scope(ctx):
+    for f in _with_helpers(ctx, _scope(ctx)):
         fl = None
         for call in [n for n in walk_local(f.node) if isinstance(n, ast.Call)]:
             if not _is_write_open(call):
@@ -257,6 +306,18 @@ def rule_atomic(ctx):
                 for rid in reps:
                     if not any(fl.cfg.dominates(cid, rid) for cid in closes):
                         early = fl.cfg.nodes[rid].ast
+            onfail = None
+            for n2, c2 in fl.calls():
+                if n2.id in reps:
+                    where_ = _in_cleanup_clause(f, c2, call)
+                    if where_:
+                        onfail = (c2, where_)
+            if onfail is not None:
+                r.violation(key, C.loc(f, onfail[0]), f"the move onto the entry path sits in a `{onfail[1]}` "
+                            "clause around the write: it also runs when the write was interrupted "
+                            "(KeyboardInterrupt, disk full, MemoryError), publishing an empty or "
+                            "truncated entry under the name readers look up")
+                continue
             if early is not None:
                 r.violation(key, C.loc(f, early), "the temporary is moved onto the entry path "
                             "before it is closed: the published entry can be empty/truncated if "
